@@ -21,6 +21,8 @@ type ctx struct {
 	stats map[string]int
 	work  string
 	curID string
+	// measure: account allocations of the segment calls of this line (C11)
+	measure bool
 }
 
 func (c *ctx) emit(id, input, obs string) {
